@@ -45,13 +45,14 @@ type Fault struct {
 
 // TreeScript describes one run of the tree world.
 type TreeScript struct {
-	Prop    string  `json:"prop"`
-	Store   string  `json:"store"`             // mem | lvlmem | lvlp | p | lvlpp
-	Cache   string  `json:"cache"`             // own | shared
-	Observe string  `json:"observe,omitempty"` // "" = harness reads through the trie under test; "fresh" = through throw-away trie objects
-	Ver     int64   `json:"ver"`
-	Faults  []Fault `json:"faults,omitempty"`
-	Ops     []Op    `json:"ops"`
+	Prop     string  `json:"prop"`
+	Scribble bool    `json:"scribble,omitempty"` // the harness edits every value a lookup returned, after judging it
+	Store    string  `json:"store"`              // mem | lvlmem | lvlp | p | lvlpp
+	Cache    string  `json:"cache"`              // own | shared
+	Observe  string  `json:"observe,omitempty"`  // "" = harness reads through the trie under test; "fresh" = through throw-away trie objects
+	Ver      int64   `json:"ver"`
+	Faults   []Fault `json:"faults,omitempty"`
+	Ops      []Op    `json:"ops"`
 	// C16: tasks and schedule
 	Tasks     [][]Op `json:"tasks,omitempty"`
 	Schedule  []int  `json:"schedule,omitempty"`
@@ -120,6 +121,9 @@ func (s *TreeScript) Simpler() []sim.Script {
 		c.Ops = append([]Op{}, s.Ops...)
 		f(&c)
 		out = append(out, &c)
+	}
+	if s.Scribble {
+		mod(func(c *TreeScript) { c.Scribble = false })
 	}
 	if s.Store != "mem" {
 		mod(func(c *TreeScript) { c.Store = "mem" })
